@@ -9,19 +9,23 @@ use crate::spec::*;
 use crate::wmodel::calls_for;
 
 fn fixpoint(ctx: &mut Ctx, rs: &RefSpec, bytes: &[u8], origin: &str, buffered: &[u64]) {
+    fixpoint_cap(ctx, rs, bytes, origin, buffered, None, 0)
+}
+
+fn fixpoint_cap(ctx: &mut Ctx, rs: &RefSpec, bytes: &[u8], origin: &str, buffered: &[u64], cap: Option<usize>, allow: u8) {
     // premise: begins at a root element and the strict iterator reads it without error
     let Some(h) = decode_header(bytes) else { return };
     if !rs.is_root(h.id) {
         return;
     }
-    let mut cfg = Cfg::strict().with_buffered(buffered);
+    let mut cfg = Cfg::strict().with_buffered(buffered).with_cap(cap).with_allow(allow);
     cfg.max_size = MaxSize::Limit(1 << 16);
     let first = parse_slice::<V>(bytes, &cfg);
     if !first.clean() {
         ctx.count("not_accepted_by_strict_reader(premise false)", 1);
         return;
     }
-    let d = || format!("{} input={} buffered={:x?}", origin, hex(bytes), buffered);
+    let d = || format!("{} input={} buffered={:x?} cap={:?}", origin, hex(bytes), buffered, cap);
     if !ctx.enter(&d) {
         return;
     }
@@ -57,13 +61,26 @@ pub fn run(ctx: &mut Ctx) {
     let rs = v_refspec();
     assert_spec_matches::<V>(&rs);
     let n = ctx.tier.pick(5, 6);
-    ctx.meta("rule", "cases: byte streams that begin at a root element and that the strict iterator reads to the end without error, from (a) real writer outputs over the tree x option space, (b) RefEncoder outputs with non-canonical encodings (zero-length and zero/sign-padded integers, 4-byte floats, 2- and 8-byte size fields, unknown-size masters closed by a following element, an ancestor's end or end of input), (b2) size-boundary documents (124..128, 16379..16384 bytes) as reference encoding and as writer output, (c) every Σ string up to length n and every single mutation of the documents; each also with all masters buffered (Full items). Oracle: every emitted item, written back one write() per item, is accepted; into_inner succeeds; a second strict read yields the identical normalised item sequence. Non-trivial: streams whose re-encoding differs from the input bytes.");
+    ctx.meta("rule", "cases: byte streams that begin at a root element and that the strict iterator reads to the end without error, from (a) real writer outputs over the tree x option space, (b) RefEncoder outputs with non-canonical encodings (zero-length and zero/sign-padded integers, 4-byte floats, 2- and 8-byte size fields, unknown-size masters closed by a following element, an ancestor's end or end of input), (b2) size-boundary documents (124..128, 16379..16384 bytes) as reference encoding and as writer output, (b3) documents with a 20-45-byte payload inside open known-size masters read with capacities {0,16,17,24,32,default}, (c) every Σ string up to length n and every single mutation of the documents; each also with all masters buffered (Full items). Oracle: every emitted item, written back one write() per item, is accepted; into_inner succeeds; a second strict read yields the identical normalised item sequence. Non-trivial: streams whose re-encoding differs from the input bytes.");
     ctx.meta("bounds", &format!("Σ* length <= {}; documents <= {} elements with <= 2 encoding deviations", n, ctx.tier.pick(4, 5)));
     ctx.meta("assumptions", "64 KiB tag-size limit on the reader (mutated size fields)");
-    for c in ["accepted_streams", "re-encoded_bytes_differ(non-canonical input)", "writer_outputs", "size_boundary_docs"] {
+    for c in ["accepted_streams", "re-encoded_bytes_differ(non-canonical input)", "writer_outputs", "size_boundary_docs", "grown_buffer_docs"] {
         ctx.expect_nonzero(c);
     }
     let all_masters: Vec<u64> = rs.masters();
+    // a payload larger than the initial capacity inside open known-size masters (both reads grow the buffer mid-document)
+    for (i, doc) in docs::grown_buffer_docs().into_iter().enumerate() {
+        if !ctx.mine(i as u64) {
+            continue;
+        }
+        let (bytes, _) = ref_encode(&doc);
+        let allow = if docs::doc_has_raw(&doc) { crate::obs::ALLOW_IDS } else { 0 };
+        for cap in [Some(0usize), Some(16), Some(17), Some(24), Some(32), None] {
+            ctx.count("grown_buffer_docs", 1);
+            fixpoint_cap(ctx, &rs, &bytes, "grown-buffer-doc", &[], cap, allow);
+            fixpoint_cap(ctx, &rs, &bytes, "grown-buffer-doc", &all_masters, cap, allow);
+        }
+    }
     // (b) RefEncoder outputs incl. non-canonical encodings, and (c) their mutations
     let p = DocParams { max_nodes: ctx.tier.pick(4, 5), globals: vec![ID_TAG, ID_VOID], exclude: vec![], unknown_subsets: true, devs: 2, payload_classes: true, big_payloads: false, noncanonical: true, width_devs: true, extras: true, all_widths: false };
     docs::for_each_doc(ctx, &rs, &p, &mut |ctx, doc| {
